@@ -301,6 +301,40 @@ def pseudo_family():
     return out
 
 
+def vocabulary_family():
+    """Every opcode of the reference vocabulary in a handful of minimal contexts (alone, twice, result dropped,
+    result duplicated, after a swap of its operands): no operator is reachable only through a bigger family that
+    happens to leave it out."""
+    from . import evm_ref as E
+    out = []
+    seen = set()
+    for op in sorted(E.ARITY):
+        if op.startswith(("DUP", "SWAP", "PUSH")) or op in ("POP", "JUMPDEST", "tag"):
+            continue
+        a, r = E.ARITY[op]
+        arg = "a1" if op == "ASSIGNIMMUTABLE" else None
+        ins = I(op, arg)
+        forms = [[ins], [ins, ins], [I("DUP1"), ins]]
+        if r == 1:
+            forms += [[ins, I("POP")], [ins, I("DUP1")], [ins, I("ISZERO")], [ins, ins, I("ADD")] if a == 0 else [ins, P(0), I("ADD")]]
+        if a >= 2:
+            forms += [[I("SWAP1"), ins], [I("DUP2"), I("DUP2"), ins], [P(0), ins], [P(1), P(0), ins] if a == 2 else [P(0), P(0), ins]]
+        if a == 1:
+            forms += [[P(0), ins], [P(1), ins], [P(MASK), ins]]
+        for b in forms:
+            if any(o in E.TERMINAL for o, _ in b[:-1]):
+                continue  # a terminal instruction ends the block: what follows is another block
+            try:
+                E.need_delta(b)
+            except Exception:
+                continue
+            t = tuple(b)
+            if t not in seen:
+                seen.add(t)
+                out.append(b)
+    return out
+
+
 ADDR9 = [C(0), C(1), C(31), C(32), C(33), X, ("ADD", C(1), X), ("ADD", C(32), X), Y]
 ADDR6 = [C(0), C(1), C(32), X, ("ADD", C(1), X), Y]
 KEYS4 = [C(0), C(1), X, Y]
